@@ -223,3 +223,22 @@ M("c05-wire-swapped", "C05", "C05.WIRE", (SNAP, "        config.max_variables = 
 M("c05-collector-default-config", "C05", "C05.WIRE", ("src/deep/processor/frame_collector.py", "processor = VariableSetProcessor(var_lookup, var_cache, self.__source.collection_config)", "processor = VariableSetProcessor(var_lookup, var_cache)"))
 R("c05-deque", "C05", (BFSF, "    queue = [node]\n", "    from collections import deque\n    queue = deque([node])\n"), (BFSF, "pop = queue.pop(0)", "pop = queue.popleft()"), (BFSF, "            queue += pop.children", "            queue.extend(pop.children)"))
 R("c05-budget-ge", "C05", (VSPF, "        if self.__var_cache.size > self.__config.max_variables:", "        if self.__var_cache.size >= self.__config.max_variables:"))
+
+# ------------------------------------------------------------------ C10
+TCX = "src/deep/processor/context/trigger_context.py"
+UTL = "src/deep/utils.py"
+M("c10-agent-globals", "C10", "C10.SCOPE", (TCX, "eval(expression, getattr(self.__frame, 'f_globals', None), self.__frame.f_locals)", "eval(expression, None, self.__frame.f_locals)"))
+M("c10-globals-as-locals", "C10", "C10.SCOPE", (TCX, "eval(expression, getattr(self.__frame, 'f_globals', None), self.__frame.f_locals)", "eval(expression, getattr(self.__frame, 'f_globals', None), getattr(self.__frame, 'f_globals', None))"))
+M("c10-caller-frame", "C10", "C10.SCOPE", (TCX, "eval(expression, getattr(self.__frame, 'f_globals', None), self.__frame.f_locals)", "eval(expression, getattr(self.__frame, 'f_globals', None), self.__frame.f_back.f_locals)"))
+M("c10-narrow-eval-guard", "C10", "C10.CONTAIN", (TCX, "            return True, eval(expression, getattr(self.__frame, 'f_globals', None), self.__frame.f_locals)\n        except BaseException as e:", "            return True, eval(expression, getattr(self.__frame, 'f_globals', None), self.__frame.f_locals)\n        except Exception as e:"))
+M("c10-condition-before-limits", "C10", "C10.TABLE", (ACX, "        if not self.location_action.can_trigger(self.trigger_context.ts):\n            return False\n", ""))
+M("c10-blank-condition-false", "C10", "C10.TABLE", (ACX, "        if self.location_action.condition is None or len(self.location_action.condition.strip()) == 0:\n            return True", "        if self.location_action.condition is None:\n            return True\n        if len(self.location_action.condition.strip()) == 0:\n            return False"))
+M("c10-failed-condition-fires", "C10", "C10.TABLE", (ACX, "        if not success:\n            # a condition that cannot be evaluated is not true\n            return False\n", "        if not success:\n            return True\n"))
+M("c10-truthy-everything", "C10", "C10.TABLE", (UTL, "return string.lower() in (\"yes\", \"true\", \"t\", \"1\", \"y\")", "return string.lower() not in (\"no\", \"false\", \"f\", \"0\", \"n\")"))
+M("c10-metric-ignores-condition", "C10", "C10.TABLE", (METR, "        if self.__has_metric_processor():\n            return super().can_trigger()\n        return False", "        return self.__has_metric_processor()"))
+M("c10-watch-no-tag-test", "C10", "C10.DISCRIM", (ACX, "            if not success:\n                # the expression could not be evaluated, so this is an error result (result is the exception)\n                return WatchResult(source, watch, None, str(result)), {}, str(result)\n", ""))
+M("c10-second-eval", "C10", "C10.SCOPE", (METR, "                metric_value = float(self.trigger_context.evaluate_expression(metric.expression))", "                metric_value = float(eval(metric.expression))"))
+M("c10-record-on-reject", "C10", "C10.BUDGET", (ACX, "        if self.has_triggered():\n            self.location_action.record_triggered(self.trigger_context.ts)", "        self.location_action.record_triggered(self.trigger_context.ts)"))
+M("c10-wrong-text", "C10", "C10.SCOPE", (ACX, "success, result = self.trigger_context.try_evaluate_expression(self.location_action.condition)", "success, result = self.trigger_context.try_evaluate_expression(self.location_action.condition.lower())"))
+R("c10-refactor-cond-local", "C10", (ACX, "        if self.location_action.condition is None or len(self.location_action.condition.strip()) == 0:\n            return True\n        success, result = self.trigger_context.try_evaluate_expression(self.location_action.condition)",
+                                     "        condition = self.location_action.condition\n        if condition is None or len(condition.strip()) == 0:\n            return True\n        success, result = self.trigger_context.try_evaluate_expression(condition)"))
